@@ -9,7 +9,7 @@ import (
 
 func main() {
 	if len(os.Args) < 4 {
-		fmt.Fprintln(os.Stderr, "usage: gvgen dump|ble|alias|drv|api <repo> <outfile>")
+		fmt.Fprintln(os.Stderr, "usage: gvgen dump|ble|alias|drv|api|reg|enum|blehandler <repo> <outfile>")
 		os.Exit(2)
 	}
 	switch os.Args[1] {
@@ -23,6 +23,12 @@ func main() {
 		translateDrv(os.Args[2], os.Args[3])
 	case "api":
 		translateApi(os.Args[2], os.Args[3])
+	case "reg":
+		translateReg(os.Args[2], os.Args[3])
+	case "enum":
+		translateEnum(os.Args[2], os.Args[3])
+	case "blehandler":
+		translateBleHandler(os.Args[2], os.Args[3])
 	default:
 		fmt.Fprintln(os.Stderr, "unknown subcommand")
 		os.Exit(2)
